@@ -209,8 +209,7 @@ Record c16case := {
   j_feasible : bool;                 (* network.is_feasible(X) *)
   j_feasible_lin : bool;             (* network.is_feasible(X, linear=True) *)
   j_iface : option bool;             (* Interface.is_feasible({station id: row}) on a Simulator+Interface of the site *)
-  j_alg : option bool;               (* utils.infrastructure_constraints_feasible(X, interface.infrastructure_info());
-                                        None: not obtained (open finding object-dtype-matrix, see known_findings.json) *)
+  j_alg : bool;                      (* utils.infrastructure_constraints_feasible(X, interface.infrastructure_info()), N x T matrix *)
   j_reload : bool;                   (* ChargingNetwork.from_json(network.to_json()).is_feasible(X) *)
   j_reload_iface : option bool;      (* Interface.is_feasible({station id: row}) on the reloaded network *)
   j_power : list Q                   (* per transformer: sum over the stations behind it of V_i * X_i0 *)
@@ -231,10 +230,7 @@ Definition check_c16 (c : c16case) : bool :=
       agrees (j_iface c) && agrees (j_reload_iface c))
   (* the algorithm-side check on the site's InfrastructureInfo (default call, as the algorithms use it) *)
   && (match infrastructure_info QF (site_net_Q s) with
-      | Ok inf => match j_alg c with
-                  | Some b => Bool.eqb (alg_is_feasible_default QF inf (k_X c) (k_T c) false) b
-                  | None => true
-                  end
+      | Ok inf => Bool.eqb (alg_is_feasible_default QF inf (k_X c) (k_T c) false) (j_alg c)
       | Err _ => false
       end)
   (* a network reloaded from its own JSON answers like the original *)
